@@ -177,14 +177,11 @@ func runC10(c *eng.Ctx) {
 			cl, ok := x.(*ssa.Call)
 			return ok && cl.Common().StaticCallee() == f
 		}), "universe-key-from-operand", all.Instr, f, "the universe of NOT is read for the tag key the operand reported", "key "+p.Desc(uk))
-		gs := c.Fn("query/operator.seriesFiltering.getSeriesIDsByExpr")
-		tfc := c.One(f, eng.CallTo("query/operator.seriesFiltering.getSeriesIDsByExpr"), "op.getSeriesIDsByExpr(expr)")
-		for i, r := range eng.SuccessReturns(f) {
-			rv1 := eng.RetVal(r, 1)
-			if eng.DependsOn(rv1, func(x ssa.Value) bool { return x == tfc.Instr.(ssa.Value) }) {
-				c.Check(eng.DependsOn(eng.RetVal(r, 0), func(x ssa.Value) bool { return extractIs(x, tfc.Instr.(ssa.Value), 0) }), fmt.Sprintf("atomic-filter-reports-its-key[%d]", i), r, f,
-					"the atomic-filter case hands its tag key up together with its series", "returns key "+p.Desc(eng.RetVal(r, 0)))
-			}
+		// the atomic-filter lookup: the helper getSeriesIDsByExpr, or its body written in place in the walker
+		gs := p.Func("query/operator.seriesFiltering.getSeriesIDsByExpr")
+		inline := gs == nil
+		if inline {
+			gs = f
 		}
 		var tv *ssa.Lookup
 		for _, b := range eng.BlocksT(gs) {
@@ -200,14 +197,30 @@ func runC10(c *eng.Ctx) {
 		fromTV := func(v ssa.Value, field string) bool {
 			return eng.DependsOnField(v, "flow.TagFilterResult."+field) && eng.DependsOn(v, func(x ssa.Value) bool { return x == ssa.Value(tv) })
 		}
+		bys := c.One(gs, invokeOn(".indexDB", "GetSeriesIDsByTagValueIDs"), "indexDB.GetSeriesIDsByTagValueIDs(key, values)")
+		if !inline {
+			tfc := c.One(f, eng.CallTo("query/operator.seriesFiltering.getSeriesIDsByExpr"), "op.getSeriesIDsByExpr(expr)")
+			for i, r := range eng.SuccessReturns(f) {
+				rv1 := eng.RetVal(r, 1)
+				if eng.DependsOn(rv1, func(x ssa.Value) bool { return x == tfc.Instr.(ssa.Value) }) {
+					// the key comes out of the helper call: its first result, or (on the helper's failing exit, where that result is 0) the constant 0
+					k0 := eng.RetVal(r, 0)
+					_, isZero := eng.ConstInt(k0)
+					c.Check(isZero || eng.DependsOn(k0, func(x ssa.Value) bool { return extractIs(x, tfc.Instr.(ssa.Value), 0) }), fmt.Sprintf("atomic-filter-reports-its-key[%d]", i), r, f,
+						"the atomic-filter case hands its tag key up together with its series", "returns key "+p.Desc(k0))
+				}
+			}
+		}
 		ns := 0
 		for i, r := range eng.SuccessReturns(gs) {
+			if inline && !eng.DependsOn(eng.RetVal(r, 1), func(x ssa.Value) bool { return x == bys.Instr.(ssa.Value) }) {
+				continue // a return of the walker that does not hand up an atom's posting lists
+			}
 			ns++
 			c.Check(fromTV(eng.RetVal(r, 0), "TagKeyID"), fmt.Sprintf("filter-key-is-the-looked-up-key[%d]", i), r, gs,
 				"every successful answer of an atomic filter carries the tag key id of its lookup result (NOT needs it also when nothing matched)", "returns "+p.Desc(eng.RetVal(r, 0)))
 		}
 		c.Check(ns >= 1, "filter-success-exit", nil, gs, "getSeriesIDsByExpr has a success exit", "")
-		bys := c.One(gs, invokeOn(".indexDB", "GetSeriesIDsByTagValueIDs"), "indexDB.GetSeriesIDsByTagValueIDs(key, values)")
 		ba := eng.CallArgs(bys.Instr.(*ssa.Call))
 		c.Check(fromTV(ba[0], "TagKeyID") && fromTV(ba[1], "TagValueIDs"), "postings-of-the-looked-up-values", bys.Instr, gs, "the posting lists read are those of the looked-up key and value ids", p.Desc(ba[0])+", "+p.Desc(ba[1]))
 		tl := c.Fn("query/operator.tagValuesLookup.findTagValueIDsByExpr")
@@ -314,9 +327,9 @@ func runC10(c *eng.Ctx) {
 			}
 			if r.typ != "" {
 				for _, fld := range []string{"mutable", "immutable"} {
-					deep := p.DeepSites(f, eng.TouchField(r.typ+"."+fld), 2, false)
+					deep := p.DeepSites(f, eng.TouchField(r.typ+"."+fld), 3, false)
 					// closures (e.g. getValue := func(mem)) receive the field value as an argument: also accept a load in the function that builds the closure call
-					c.Check(len(deep) > 0, fmt.Sprintf("reads-%s:%s", fld, r.fn), nil, f, r.fn+" reads the "+fld+" store", "no read of "+r.typ+"."+fld+" within two call levels")
+					c.Check(len(deep) > 0, fmt.Sprintf("reads-%s:%s", fld, r.fn), nil, f, r.fn+" reads the "+fld+" store", "no read of "+r.typ+"."+fld+" within three call levels")
 				}
 			}
 		}
@@ -352,12 +365,22 @@ func runC10(c *eng.Ctx) {
 	// the condition walker combines the sets of its atoms IN PLACE (left.And(right) / left.Or(right)); every atom therefore gets a set of
 	// its own from the index, never one that is kept and handed out again
 	c.Rule("PROV", "query/operator.seriesFiltering.getSeriesIDsByExpr{every atom gets its own series set}", func() {
-		f := c.Fn("query/operator.seriesFiltering.getSeriesIDsByExpr")
+		f := p.Func("query/operator.seriesFiltering.getSeriesIDsByExpr")
+		inline := f == nil
+		if inline {
+			f = c.Fn("query/operator.seriesFiltering.findSeriesIDsByExpr") // the lookup written in place in the walker
+		}
 		load := c.One(f, invokeOn(".indexDB", "GetSeriesIDsByTagValueIDs"), "indexDB.GetSeriesIDsByTagValueIDs(key, values)")
 		n := 0
 		for i, r := range eng.SuccessReturns(f) {
 			v := eng.RetVal(r, 1)
 			if eng.IsNilConst(v) {
+				continue
+			}
+			if inline && !eng.DependsOn(v, func(x ssa.Value) bool { return x == load.Instr.(ssa.Value) }) {
+				// a return of the walker itself (a combination, or an empty set): it must not come out of a keep-and-reuse store either
+				kept := eng.DependsOn(v, func(x ssa.Value) bool { _, isLookup := x.(*ssa.Lookup); return isLookup })
+				c.Check(!kept, fmt.Sprintf("set-not-from-a-store[%d]", i), r, f, "no series set is taken from a map kept by the operator", "returns "+p.Desc(v))
 				continue
 			}
 			n++
@@ -429,7 +452,10 @@ func runC10(c *eng.Ctx) {
 		// concatenation — "host in (a,b)" for both in('a,b') and in('a','b'), "host=~a" for both = '~a' and =~ 'a' — and is not.
 		injective := []string{"sql/stmt.Marshal"}
 		w := c.Fn("query/operator.tagValuesLookup.findTagValueIDsByExpr")
-		r := c.Fn("query/operator.seriesFiltering.getSeriesIDsByExpr")
+		r := p.Func("query/operator.seriesFiltering.getSeriesIDsByExpr")
+		if r == nil {
+			r = c.Fn("query/operator.seriesFiltering.findSeriesIDsByExpr")
+		}
 		var keys []ssa.Value
 		var at []ssa.Instruction
 		for _, b := range eng.BlocksT(w) {
@@ -556,7 +582,7 @@ func memoryBeforeSnapshot(c *eng.Ctx, readers []orderedReader) {
 		f := c.Fn(r.fn)
 		var mem []eng.Site
 		seen := map[ssa.Instruction]bool{}
-		for _, d := range p.DeepSites(f, eng.TouchField(r.typ+".mutable", r.typ+".immutable"), 2, false) {
+		for _, d := range p.DeepSites(f, eng.TouchField(r.typ+".mutable", r.typ+".immutable"), 3, false) {
 			if top := d.Top(); !seen[top] {
 				seen[top] = true
 				mem = append(mem, eng.Site{Fn: f, Instr: top})
@@ -568,7 +594,7 @@ func memoryBeforeSnapshot(c *eng.Ctx, readers []orderedReader) {
 		}
 		snaps := p.Sites(f, r.snap)
 		c.Check(len(snaps) == 1, r.fn+":one-snapshot", nil, f, r.fn+" picks exactly one snapshot", fmt.Sprintf("%d snapshot acquisitions", len(snaps)))
-		c.Check(len(mem) > 0, r.fn+":reads-memory", nil, f, r.fn+" reads the memory stores", "no read of "+r.typ+".mutable/immutable within two call levels")
+		c.Check(len(mem) > 0, r.fn+":reads-memory", nil, f, r.fn+" reads the memory stores", "no read of "+r.typ+".mutable/immutable within three call levels")
 		if len(snaps) != 1 || len(mem) == 0 {
 			continue
 		}
